@@ -862,6 +862,56 @@ fn main() {
     report.assume("a rule positioned relative to itself: place not specified (weak invariants only: no panic, unique ids, other rules untouched, atomic on Err)");
     report.assume("which InsertPushRuleError variant is returned is not compared, only Ok / Err");
 
+    // every rule of the server-default ruleset, one by one (the state machine below uses one default rule per kind):
+    // its ID starts with `.`, it says it is a server default, it cannot be removed, and the ruleset is unchanged
+    {
+        let mut t = Tally::new();
+        let base = Ruleset::server_default(<&UserId>::try_from("@u:x").unwrap());
+        let text0 = js(&base);
+        let listed: Vec<(RuleKind, String, bool)> = base
+            .iter()
+            .map(|r| {
+                use ruma_common::push::AnyPushRuleRef as R;
+                let kind = match r {
+                    R::Override(_) => RuleKind::Override,
+                    R::Content(_) => RuleKind::Content,
+                    R::Room(_) => RuleKind::Room,
+                    R::Sender(_) => RuleKind::Sender,
+                    R::Underride(_) => RuleKind::Underride,
+                    #[allow(unreachable_patterns)]
+                    _ => machinery_error("rule kind this harness does not know"),
+                };
+                (kind, r.rule_id().to_owned(), r.is_server_default())
+            })
+            .collect();
+        for (kind, id, is_default) in &listed {
+            t.states += 1;
+            t.nontrivial += 1;
+            t.transitions += 1;
+            let case = || json!({"predefined": id, "kind": kind.as_str()});
+            if !id.starts_with('.') || !*is_default {
+                report.violation(
+                    &format!("predefined/not-marked-server-default/{id}"),
+                    || format!("rule {id} of the server-default ruleset: id starts with '.': {}, is_server_default(): {is_default}", id.starts_with('.')),
+                    case,
+                );
+            }
+            let mut rs = base.clone();
+            match catch(|| rs.remove(kind.clone(), id)) {
+                Err(p) => report.violation(&format!("panic/{}/remove-predefined", p.file()), || p.text.clone(), case),
+                Ok(Ok(())) => report.violation(&format!("removes-server-default/{id}"), || format!("remove({kind:?}, {id}) succeeded on the server-default ruleset"), case),
+                Ok(Err(_)) => {
+                    t.outcome("predefined-remove", "refused");
+                    if js(&rs) != text0 {
+                        report.violation(&format!("not-atomic/remove-predefined/{id}"), || "the refused removal changed the ruleset".into(), case);
+                    }
+                }
+            }
+        }
+        report.set("predefined_rules_checked", json!(listed.len()));
+        report.merge(t);
+    }
+
     // the canonical form must survive a round trip, otherwise `rebuild from the state` is not faithful
     for sd in [false, true] {
         let rs = if sd { Ruleset::server_default(<&UserId>::try_from("@u:x").unwrap()) } else { Ruleset::new() };
